@@ -60,6 +60,13 @@ fn body<const N: usize>() {
 }
 
 #[kani::proof]
+#[kani::unwind(6)]
+#[kani::stub(alloc::fmt::format, stub_format)]
+fn c31_row_col_3() {
+    body::<3>();
+}
+
+#[kani::proof]
 #[kani::unwind(7)]
 #[kani::stub(alloc::fmt::format, stub_format)]
 fn c31_row_col_4() {
